@@ -12,6 +12,7 @@ def jobs(tier):
         lengths = (0,) if a == 0 else ((0, 1, 7, 8) if tier == "quick" else range(9))
         for ln in lengths:
             idxs = sorted(set([-1, 0, ln - 1, ln, ln + 1, 9]) - {-2}) if tier == "quick" else range(-1, 11)
+            idxs = [i_ for i_ in idxs if -1 <= i_ <= a + 2]      # the harness bounds the index by allocation + 2
             for op in range(5):
                 for ix, addv in [(ix, addv) for ix in (idxs if op in (0, 1, 3) else (0,))
                                  for addv in ((0, 1) if op == 0 else (1,))]:
